@@ -228,17 +228,27 @@ def stepLine (st : St) (line : String) : St × String :=
   | "case" :: rest =>
     match nat? rest "id" with
     | some i =>
-      -- `off=<switch,…>`: the case runs against /repo with the corresponding fix applied
+      -- `off=<switch,…>` / `on=<switch,…>` relative to `asImplemented`: the case is meant for a /repo with
+      -- the corresponding fix applied / reverse-applied
       let off := ((kv? rest "off").getD "").splitOn ","
-      let on (n : String) : Bool := !off.contains n
+      let onl := ((kv? rest "on").getD "").splitOn ","
+      let sw (n : String) (cur : Bool) : Bool := (cur || onl.contains n) && !off.contains n
+      let a := Defects.asImplemented
+      let r := RoomNode.Defects.asImplemented
       let dI : Defects :=
-        { edgeSourceUnchecked := on "edgeSource", edgeReplaceUnchecked := on "edgeReplace",
-          entityChangeUnchecked := on "entityChange", roomlessReplaceUnchecked := on "roomlessReplace",
-          delRoomUnchecked := on "delRoom", delEntityUnchecked := on "delEntity",
-          edgeDelSourceUnchecked := on "edgeDelSource", jsonAbsentUnchecked := on "jsonAbsent" }
+        { edgeSourceUnchecked := sw "edgeSource" a.edgeSourceUnchecked,
+          edgeReplaceUnchecked := sw "edgeReplace" a.edgeReplaceUnchecked,
+          entityChangeUnchecked := sw "entityChange" a.entityChangeUnchecked,
+          roomlessReplaceUnchecked := sw "roomlessReplace" a.roomlessReplaceUnchecked,
+          delRoomUnchecked := sw "delRoom" a.delRoomUnchecked,
+          delEntityUnchecked := sw "delEntity" a.delEntityUnchecked,
+          edgeDelSourceUnchecked := sw "edgeDelSource" a.edgeDelSourceUnchecked,
+          jsonAbsentUnchecked := sw "jsonAbsent" a.jsonAbsentUnchecked,
+          authEntityUnchecked := sw "authEntity" a.authEntityUnchecked }
       let dR : RoomNode.Defects :=
-        { placingEdgeUnchecked := on "placingEdge", roomRowUnchecked := on "roomRow",
-          newGroupUserAdminUnchecked := on "newGroupUserAdmin" }
+        { placingEdgeUnchecked := sw "placingEdge" r.placingEdgeUnchecked,
+          roomRowUnchecked := sw "roomRow" r.roomRowUnchecked,
+          newGroupUserAdminUnchecked := sw "newGroupUserAdmin" r.newGroupUserAdminUnchecked }
       ({ St.init with dI, dR }, s!"case {i}")
     | none => (st, "bad-op")
   | "room" :: rest =>
